@@ -49,6 +49,10 @@ type MorxChainSubtable struct {
 
 // check and return the subtable length
 func (mc *MorxChainSubtable) parseEnd(src []byte, _ int) (int, error) {
+	const headerSize = 12
+	if mc.length < headerSize {
+		return 0, fmt.Errorf("invalid morx subtable length: %d", mc.length)
+	}
 	if L := len(src); L < int(mc.length) {
 		return 0, fmt.Errorf("EOF: expected length: %d, got %d", mc.length, L)
 	}
